@@ -300,11 +300,14 @@ def checkSortedPairs : List Term → Except Term Unit
     | some _ => checkSortedPairs es
     | none => .error (typeErr "pair" e)
 
-/-- comparison of two elements of a keysort list by their keys (`Arg(0).Compare(Arg(0))`) -/
-def cmpKey (x y : Term) : Ordering :=
-  match pairKey x, pairKey y with
-  | some k, some l => compare k l
-  | _, _ => .eq
+/-- `e.(Compound).Arg(0)`: the key of a `K-V` pair.  `KeySort` only sorts after every element
+    passed `checkPairs`, so the type assertion cannot fail there (second equation unreachable). -/
+def keyOf : Term → Term
+  | .app _ (.cons k _) => k
+  | t => t
+
+/-- `less` of `KeySort`: `elems[i].(Compound).Arg(0).Compare(elems[j].(Compound).Arg(0), env)` -/
+def cmpKey (x y : Term) : Ordering := compare (keyOf x) (keyOf y)
 
 /-- engine/builtin.go `KeySort`, with Go's `sort.SliceStable` as the parameter `sorter` -/
 def keysort (sorter : List Term → List Term) (pairs sorted : Term) : Except Term Term := do
